@@ -203,7 +203,9 @@ def AckB.St.str (s : AckB.St) : String :=
 def driveAck (toks : List String) : String :=
   match toks with
   | final :: n :: "|" :: acts =>
-    (match parseStatus? final, n.toNat?, acts.mapM parseAckAct? with
+    -- `h`: a bystander calls `handle()` on the same acknowledgement and drops the handle without polling: no access to
+    -- status, flag or waker slot in the model (`CommandAcknowledgement::handle` only clones the `Arc`)
+    (match parseStatus? final, n.toNat?, (acts.filter (· ≠ "h")).mapM parseAckAct? with
      | some f, some k, some as =>
        (match AckB.run (AckB.init f k) as with
         | some s => s.str
